@@ -278,7 +278,8 @@ def encoder(rep, prog, enc, par, roles):
             if i in (1, 2) and ok:
                 # t comes from .0 of convert(opslimit, memlimit), m from .1
                 po, pm = ax[i].find("_1." + ".".join(want_ops[1][1])), ax[i].find("_1." + ".".join(want_ops[2][1]))
-                ok = ax[i].endswith(".%d" % (i - 1)) and 0 <= po < pm
+                comp_, _cv = cm.conv_component(prog, call_arg_exprs(calls[0])[i])
+                ok = comp_ == ("t" if i == 1 else "m") and 0 <= po < pm
             rep.ob("ENCODER", "PwHash::to_string passes %s" % role, ok,
                    "encoder operand %d is %s (object field roles %s)" % (i, ax[i][:120] if i < len(ax) else "?", orole), loc=calls[0].loc())
     # from_string fills the same fields from parsed content
@@ -428,7 +429,8 @@ def rehash(rep, prog, par, roles):
         return
     f0 = fs[0]
     # the cost conversion: the crate function (u64, usize) -> (u32, u32); it stays a call
-    is_conv = lambda g: g.argc == 2 and g.locals[0].get("t") == "(u32, u32)" and g.locals[1].get("t") == "u64" and g.locals[2].get("t") == "usize"
+    _cg, _croles = cm.cost_conversion(prog)
+    is_conv = lambda g: _cg is not None and g.key == _cg.key
     f = inline(prog, f0, keep=(lambda g: g.key == par.key or is_conv(g),))
     # (t, m) = convert(opslimit, memlimit): the crate-local call fed by parameters 2 and 3 in that order
     conv = [c for c in f.calls() if c.is_local and len(c.args) == 2 and
@@ -446,8 +448,8 @@ def rehash(rep, prog, par, roles):
         x = e
         while x is not None and x.k == "cast":
             x = x.a
-        if x is not None and x.k == "field" and x.a.k == "call" and x.a.a.bb == cv.bb and x.a.a.fn is f and x.b in ("0", "1"):
-            return ("conv", "t" if x.b == "0" else "m")
+        if x is not None and x.k == "field" and x.a.k == "call" and x.a.a.bb == cv.bb and x.a.a.fn is f and str(x.b).split(".")[-1] in _croles:
+            return ("conv", _croles[str(x.b).split(".")[-1]])
         return None
     atoms = {}      # (bb, stmt index) -> (role, op)
     for b in range(f.n):
